@@ -1,0 +1,103 @@
+//go:build verif
+
+// Package verifhook provides pause/fault points for the external verification
+// harness. It is only compiled in with the "verif" build tag.
+package verifhook
+
+import (
+	"os"
+	"runtime"
+	"strconv"
+	"strings"
+	"sync"
+	"sync/atomic"
+	"syscall"
+)
+
+var handler atomic.Pointer[func(point, detail string)]
+
+// Set installs (or, with nil, removes) the handler called by At.
+func Set(f func(point, detail string)) {
+	if f == nil {
+		handler.Store(nil)
+		return
+	}
+	handler.Store(&f)
+}
+
+// At marks a named point in the code and calls the installed handler, if any.
+func At(point, detail string) {
+	if f := handler.Load(); f != nil {
+		(*f)(point, detail)
+	}
+}
+
+// AtI is At with an index appended to the detail ("detail#i").
+func AtI(point, detail string, i int) {
+	if f := handler.Load(); f != nil {
+		(*f)(point, detail+"#"+strconv.Itoa(i))
+	}
+}
+
+// rule is "<point>[:<detail-substring>][#n]".
+type rule struct {
+	point, detail string
+	n             int64
+	seen          atomic.Int64
+}
+
+func parseRule(s string) *rule {
+	r := &rule{n: 1}
+	if i := strings.LastIndexByte(s, '#'); i >= 0 {
+		if n, err := strconv.ParseInt(s[i+1:], 10, 64); err == nil {
+			r.n = n
+			s = s[:i]
+		}
+	}
+	if i := strings.IndexByte(s, ':'); i >= 0 {
+		r.detail = s[i+1:]
+		s = s[:i]
+	}
+	r.point = s
+	return r
+}
+
+func (r *rule) match(point, detail string) bool {
+	return r != nil && r.point == point && (r.detail == "" || strings.Contains(detail, r.detail))
+}
+
+func init() {
+	kill := os.Getenv("TASK_VERIF_KILL_AT")
+	spin := os.Getenv("TASK_VERIF_SPIN_AT")
+	trace := os.Getenv("TASK_VERIF_HOOK_TRACE")
+	if kill == "" && spin == "" && trace == "" {
+		return
+	}
+	var killRule, spinRule *rule
+	if kill != "" {
+		killRule = parseRule(kill)
+	}
+	if spin != "" {
+		spinRule = parseRule(spin)
+	}
+	var mu sync.Mutex
+	Set(func(point, detail string) {
+		if trace != "" {
+			mu.Lock()
+			if f, err := os.OpenFile(trace, os.O_APPEND|os.O_CREATE|os.O_WRONLY, 0o644); err == nil {
+				f.WriteString(point + " " + detail + "\n")
+				f.Close()
+			}
+			mu.Unlock()
+		}
+		if killRule.match(point, detail) && killRule.seen.Add(1) == killRule.n {
+			syscall.Kill(os.Getpid(), syscall.SIGKILL)
+			select {}
+		}
+		if spinRule.match(point, detail) {
+			for i := int64(0); i < spinRule.n; i++ {
+				runtime.Gosched()
+			}
+		}
+	})
+}
